@@ -410,7 +410,11 @@ def compare(scn: Dict[str, Any], exp: Dict[str, Any], got: Dict[str, Any]) -> Op
             return f"source subscriptions:{len(subs)}"
         if subs[0][0] != 200:
             return f"subscribed at {subs[0][0]}"
-        want = NEVER_T if u >= len(T) or (u > len(scn["src"]) + 1) else (got["dtime"] if (got["dtime"] is not None and u == scn["dsp"]) else T[u])
+        # the model closes the source at instant u either because the pipeline terminated there (its last output is a
+        # terminal stamped u) or because the subscriber disposed right after the events of instant u = dsp
+        ended = bool(out) and out[-1]["k"] != "N" and out[-1]["at"] == u
+        by_dispose = got["dtime"] is not None and u == scn["dsp"] and not ended
+        want = NEVER_T if u >= len(T) or (u > len(scn["src"]) + 1) else (got["dtime"] if by_dispose else T[u])
         if op in NOTIME_OPS:
             if want != NEVER_T and subs[0][1] == NEVER_T:
                 return "source subscription still open after termination"
